@@ -12,7 +12,7 @@ import numpy as np
 
 from .oracle import refq
 
-ENTRY_CLASSES = ["gauss", "int", "pure_imag", "single_axis", "zeros", "sparse", "mixed_mag", "huge", "tiny", "nonpos", "nonneg", "nonpos_sparse", "sum_zero", "neg_real", "two_axis"]
+ENTRY_CLASSES = ["gauss", "int", "pure_imag", "single_axis", "zeros", "sparse", "mixed_mag", "huge", "tiny", "nonpos", "nonneg", "nonpos_sparse", "sum_zero", "neg_real", "two_axis", "mixed_comp", "graded_cols", "graded_rows"]
 
 
 def rng_for(seed: int, *key) -> np.random.Generator:
@@ -50,6 +50,12 @@ def entries(rng, cls: str, m: int, n: int) -> np.ndarray:
     elif cls == "mixed_mag":
         ex = rng.integers(-6, 7, size=(m, n, 1)).astype(float)
         c = rng.standard_normal((m, n, 4)) * 10.0 ** ex
+    elif cls == "mixed_comp":        # the four COMPONENTS of each entry on different scales (1 .. 1e-12): nearly real / nearly pure entries
+        ex = rng.choice([0.0, -3.0, -6.0, -9.0, -12.0], size=(m, n, 4))
+        c = rng.standard_normal((m, n, 4)) * 10.0 ** ex
+    elif cls in ("graded_cols", "graded_rows"):   # whole columns (rows) on scales 1, 1e-3, ... 1e-12: legitimately tiny columns next to O(1) ones
+        ex = rng.permutation(np.resize(np.array([0.0, -3.0, -6.0, -9.0, -12.0]), n if cls == "graded_cols" else m))
+        c = rng.standard_normal((m, n, 4)) * (10.0 ** ex)[(None, slice(None), None) if cls == "graded_cols" else (slice(None), None, None)]
     elif cls == "huge":
         c = rng.standard_normal((m, n, 4)) * 1e140
     elif cls == "tiny":
